@@ -714,10 +714,15 @@ func scenarioC12(c *hlib.RunCtx) *hlib.Violation {
 			}
 			s.Logf("req", "overlapping pair %s (stopped before %s: %v) and %s -> %d, %d", na, at, overlapped, nb, recA.Code, recB.Code)
 			if recA.Code != 200 || recB.Code != 200 {
+				ja, _ := json.Marshal(ra)
+				jb, _ := json.Marshal(rb)
 				if recA.Code >= 500 || recB.Code >= 500 {
 					fail("server-error", "overlapping uploads were answered %d and %d", recA.Code, recB.Code)
+				} else if len(ja) < maxRequestBytes-1024 && len(jb) < maxRequestBytes-1024 {
+					// both reports are valid, approved and below the size limit: served one
+					// after the other each would be stored
+					fail("valid-rejected", "two valid approved reports (weeks %s and %s) whose handling overlapped were answered %d and %d", ra.Week, rb.Week, recA.Code, recB.Code)
 				}
-				// (a report this generator calls valid and the server refuses is judged by the sequential clauses)
 			} else {
 				for _, x := range []struct {
 					n string
